@@ -44,6 +44,9 @@ fn message_for(s: u64) -> Vec<u8> {
 
 impl Sub for RoundTrip {
     type Case = RoundTripCase;
+    fn restrictable(&self) -> bool {
+        true
+    }
     fn name(&self) -> &'static str {
         "serialisation_round_trip"
     }
